@@ -140,6 +140,7 @@ func (e *Enc) call(x *ssa.Call, st *State) {
 			v := mkResult()
 			e.vals[x] = v
 			e.emitAssert(-1, e.typeFacts(v, st))
+			e.emitAssert(-1, e.notLocal(v))
 			return
 		}
 		// unknown callee: may modify everything, returns anything
@@ -151,6 +152,7 @@ func (e *Enc) call(x *ssa.Call, st *State) {
 		v := mkResult()
 		e.vals[x] = v
 		e.emitAssert(-1, e.typeFacts(v, st))
+		e.emitAssert(-1, e.notLocal(v))
 		return
 	}
 	if ct.Trusted != "" {
@@ -240,6 +242,7 @@ func (e *Enc) call(x *ssa.Call, st *State) {
 	res := mkResult()
 	e.vals[x] = res
 	e.emitAssert(-1, e.typeFacts(res, st))
+	e.emitAssert(-1, e.notLocal(res))
 	// bind result names
 	var rnames []string
 	var sig *types.Signature
